@@ -20,6 +20,7 @@ import (
 var (
 	errConfigFileRequired = errors.New("config file was not specified")
 	errReadFile           = errors.New("failed to read file")
+	errInvalidDefinition  = errors.New("invalid definition")
 )
 
 // Load loads config from file.
@@ -247,14 +248,22 @@ func unmarshalData(data []byte) (map[string]any, error) {
 }
 
 // decode decodes the configuration map into a configDefinition.
-func decode(cm map[string]any) (*definition, error) {
-	c := new(definition)
+func decode(cm map[string]any) (c *definition, err error) {
+	// The decoder panics on some malformed inputs (e.g. a non-string key in
+	// a map that is decoded into a struct); report them as errors.
+	defer func() {
+		if r := recover(); r != nil {
+			err = fmt.Errorf("%w: %v", errInvalidDefinition, r)
+		}
+	}()
+
+	c = new(definition)
 	md, _ := mapstructure.NewDecoder(&mapstructure.DecoderConfig{
 		ErrorUnused: true,
 		Result:      c,
 		TagName:     "",
 	})
-	err := md.Decode(cm)
+	err = md.Decode(cm)
 
 	return c, err
 }
